@@ -69,16 +69,29 @@ func doAclCheck(method string, path string, token *jwt.Token, core *security.Ser
 		return echo.NewHTTPError(http.StatusForbidden, "user does not have permission")
 	}
 
-	// get the method
-	action := "read"
-	if method == "DELETE" || method == "POST" {
-		action = "write"
+	// get the method: only the safe methods are reads, everything else changes state
+	action := "write"
+	if method == http.MethodGet || method == http.MethodHead || method == http.MethodOptions {
+		action = "read"
 	}
 
+	granted := false
 	for _, ac := range acl {
-		if core.CheckGranted(ac, path, action) {
-			return nil
+		if ac.Deny {
+			// an explicit deny on a matching resource and action wins over any allow
+			allow := *ac
+			allow.Deny = false
+			if core.CheckGranted(&allow, path, action) {
+				return echo.NewHTTPError(http.StatusForbidden, "user does not have permission")
+			}
+			continue
 		}
+		if core.CheckGranted(ac, path, action) {
+			granted = true
+		}
+	}
+	if granted {
+		return nil
 	}
 
 	return echo.NewHTTPError(http.StatusForbidden, "user does not have permission")
